@@ -1536,4 +1536,169 @@ theorem c07_shape_treeStorage_Remove_b2 :
      "recv:c", "timer.Stop", "return:", "}"] := rfl
 
 
+
+/-! ### handlers held at the same time: arbitrary schedules of holds, releases, envelopes and removals -/
+
+theorem releaseHeld_not_panic (s : Srv) (h : Held) : (releaseHeld s h).1 ≠ .panic := by
+  unfold releaseHeld
+  cases h.kind
+  · exact deliver_not_panic _ _ _ _
+  · simp
+
+theorem sstep_not_panic (x : SSt) (e : SEv) : (sstep x e).1 ≠ .panic := by
+  cases e with
+  | env e => exact c07_no_panic _ _
+  | hold to frm b =>
+    simp only [sstep]
+    split
+    · exact c07_no_panic _ _
+    · split <;> simp
+  | expire t => simp [sstep]
+  | release i =>
+    simp only [sstep]
+    cases x.held[i]? with
+    | none => simp
+    | some h => exact releaseHeld_not_panic _ _
+
+/-- a predicate every envelope keeps, that the completed removal of an unused tree keeps and that does not look at the
+request counter nor at the difference between an absent and a requested tree, is kept by every step of a schedule -/
+theorem Stable.sstep {P : Srv → Prop} (h : Stable P)
+    (hx : ∀ s t, P s → listedOn s t = false → P { s with slot := upd s.slot t .absent, armed := upd s.armed t false })
+    (ha : ∀ s t, P s → P (registerAsk s t))
+    (x : SSt) (e : SEv) (hp : P x.s) : P (sstep x e).2.s := by
+  cases e with
+  | env e => exact h.process _ _ hp
+  | hold to frm b =>
+    simp only [C07.sstep]
+    split
+    · exact h.process _ _ hp
+    · rename_i hn
+      split
+      · exact h.refresh _ _ hp
+      · rename_i hnp
+        exact (h.park x.s (treeOf to) (to, frm, b) hp hnp rfl).1
+  | expire t =>
+    simp only [C07.sstep, expireTree]
+    split
+    · rename_i hc; exact hx _ _ hp hc.2
+    · exact hp
+  | release i =>
+    simp only [C07.sstep]
+    cases hh : x.held[i]? with
+    | none => exact hp
+    | some hd =>
+      simp only [releaseHeld]
+      cases hd.kind
+      · exact h.deliver _ _ _ _ hp
+      · exact ha _ _ hp
+
+theorem Stable.srun {P : Srv → Prop} (h : Stable P)
+    (hx : ∀ s t, P s → listedOn s t = false → P { s with slot := upd s.slot t .absent, armed := upd s.armed t false })
+    (ha : ∀ s t, P s → P (registerAsk s t))
+    (es : List SEv) (x : SSt) (hp : P x.s) : P (srun x es).s := by
+  induction es generalizing x with
+  | nil => exact hp
+  | cons e es ih => exact ih _ (h.sstep hx ha x e hp)
+
+/-- **no crash and no lock left, whatever is held and in whatever order it goes on**: in every schedule — any number
+of protocol messages held past their tree lookup or between `IsRegistered` and `Register`, released in any order,
+interleaved with any envelopes and with removals of unused trees — no step panics and the pending-tree lock is free
+after every step. -/
+theorem c07_sched_no_panic_locks_released (es : List SEv) (x : SSt) (e : SEv) (h : x.s.treeLock = 0) :
+    (sstep (srun x es) e).1 ≠ .panic ∧ (srun x es).s.treeLock = 0 :=
+  ⟨sstep_not_panic _ _, stable_lock.srun (fun _ _ h _ => h) (fun _ _ h => h) es x h⟩
+
+/-- **nothing is stuck, in every state of every schedule** — also while handlers are held: a message is parked only for
+a tree the server does not have.  (With `held = []` this is quiescence: `c07_quiescent_nothing_stuck` for three-way
+and wider interleavings.) -/
+theorem c07_sched_nothing_stuck (es : List SEv) (x : SSt) (hc : ParkedClean x.s) : ParkedClean (srun x es).s :=
+  stable_parkedClean.srun (fun s t h _ => parkedClean_expire s t h) (fun s t h => parkedClean_ask s t h) es x hc
+
+theorem srun_append (x : SSt) (a b : List SEv) : srun x (a ++ b) = srun (srun x a) b := by
+  induction a generalizing x with
+  | nil => rfl
+  | cons e a ih => simp [srun, ih]
+
+theorem srun_envs (x : SSt) (es : List Env) : srun x (es.map .env) = { x with s := runEnvs x.s es } := by
+  induction es generalizing x with
+  | nil => rfl
+  | cons e es ih => simp [srun, sstep, runEnvs, ih]
+
+theorem upd_upd {α : Type} (f : TRef → α) (t : TRef) (v w : α) : upd (upd f t v) t w = upd f t w := by
+  funext x; simp only [upd]; split <;> rfl
+
+/-- **the one-message windows are schedules**: `window` = hold, the removal, the envelopes, release -/
+theorem c07_sched_window_is_schedule (s : Srv) (to : Tok) (frm : Frm) (b : Body) (es : List Env)
+    (hg : b ≠ .garbage) (hn : to ≠ .none) (hp : s.slot (treeOf to) = .present) (hl : listedOn s (treeOf to) = false) :
+    (srun { s := s } ([.hold to frm b, .expire (treeOf to)] ++ es.map .env ++ [.release 0])).s
+      = (window s to frm b es).2 := by
+  have hw : ¬ (b = .garbage ∨ to = .none ∨ s.slot (treeOf to) ≠ .present ∨ listedOn s (treeOf to) = true) := by
+    simp [hg, hn, hp, hl]
+  have hh : ¬ (b = .garbage ∨ to = .none ∨ s.slot (treeOf to) = .requested) := by simp [hg, hn, hp]
+  have hl' : listedOn { s with armed := upd s.armed (treeOf to) false } (treeOf to) = false := by
+    rw [← hl]; cases treeOf to <;> rfl
+  have e1 : sstep { s := s } (.hold to frm b) =
+      (.ok, { s := { s with armed := upd s.armed (treeOf to) false }, held := [⟨.found, to, frm, b⟩] }) := by
+    simp [sstep, hg, hn, hp]
+  have e2 : sstep { s := { s with armed := upd s.armed (treeOf to) false }, held := [⟨.found, to, frm, b⟩] } (.expire (treeOf to)) =
+      (.ok, { s := { s with slot := upd s.slot (treeOf to) .absent, armed := upd s.armed (treeOf to) false },
+              held := [⟨.found, to, frm, b⟩] }) := by
+    simp [sstep, expireTree, hp, hl', upd_upd]
+  simp only [window, hw, if_false, srun_append, srun_envs]
+  simp only [srun, e1, e2]
+  simp [sstep, releaseHeld]
+
+/-- … and `rwindow` = hold, the envelopes, release -/
+theorem c07_sched_rwindow_is_schedule (s : Srv) (to : Tok) (frm : Frm) (b : Body) (es : List Env)
+    (hg : b ≠ .garbage) (hn : to ≠ .none) (ha : s.slot (treeOf to) = .absent) :
+    (srun { s := s } ([.hold to frm b] ++ es.map .env ++ [.release 0])).s = (rwindow s to frm b es).2 := by
+  have hw : ¬ (b = .garbage ∨ to = .none ∨ s.slot (treeOf to) ≠ .absent) := by simp [hg, hn, ha]
+  have hh : ¬ (b = .garbage ∨ to = .none ∨ s.slot (treeOf to) = .requested) := by simp [hg, hn, ha]
+  have hp : ¬ s.slot (treeOf to) = .present := by simp [ha]
+  have e1 : sstep { s := s } (.hold to frm b) =
+      (.ok, { s := { s with armed := upd s.armed (treeOf to) false,
+                            parked := upd s.parked (treeOf to) (s.parked (treeOf to) ++ [(to, frm, b)]) },
+              held := [⟨.missed, to, frm, b⟩] }) := by
+    simp [sstep, hg, hn, ha]
+  simp only [rwindow, hw, if_false, srun_append, srun_envs]
+  simp only [srun, e1]
+  simp [sstep, releaseHeld, registerAsk]
+
+/-! non-vacuity: a three-way interleaving no window reaches.  Tree U is stored and unused; A and B both get past the
+lookup (held at `tm.found`), the tree is removed, C misses it (parked, held at `rt.unregistered`), a fourth message
+for U is handled to its end (parked behind C, the tree is requested); then B goes on FIRST (stores the tree it
+holds, creates the instance, takes C's and the fourth message), then C (its `Register` finds the tree set: kept),
+then A (the instance exists).  All four reach the instance, nothing is parked, the tree is there. -/
+private def s0 : Srv := runEnvs {} [.proto (.badProto .U) .member .m3, .respTree (some ⟨.U, .roX, .good⟩) (some ⟨.roX, true, true⟩)]
+private def three : List SEv :=
+  [.hold (.fresh .U) .member .m3, .hold (.fresh .U) .member .m4, .expire .U, .hold (.fresh .U) .member .m3,
+   .env (.proto (.fresh .U) .member .m4), .release 1, .release 1, .release 0]
+
+example : s0.slot .U = .present ∧ listedOn s0 .U = false := by decide
+example : let x := srun { s := s0 } three
+    x.held.length = 0 ∧ x.s.slot .U = .present ∧ x.s.parked .U = [] ∧ x.s.handed = 4 ∧ x.s.delivered = 4 := by
+  decide
+/-- in the middle of it (two handlers held past the lookup, one before `Register`, the tree gone and requested) two
+messages are parked — for a tree the server does not have -/
+example : let x := srun { s := s0 } (three.take 5)
+    x.held.length = 3 ∧ x.s.slot .U = .requested ∧ (x.s.parked .U).length = 2 := by decide
+
+/-- a `Register` that does not look whether the tree has been set meanwhile (the variant treestorage.go's comment
+rules out) -/
+def registerAskBlind (s : Srv) (t : TRef) : Srv :=
+  { s with slot := upd s.slot t (if s.slot t = .present then .requested else .requested), asks := s.asks + 1 }
+
+/-- **negation witness for that variant, reachable only with two handlers held at once**: C's `Register`, running
+after B has stored the tree and created the instance, turns the slot of a tree IN USE back into "requested": the
+next message for the running instance is parked instead of delivered — the server is silenced on that run (and the
+peer's answer to C's request is the only thing that brings it back). -/
+theorem c07_sched_blind_register_silences :
+    let x := srun { s := s0 } (three.take 6)          -- … B has gone on
+    let blind := registerAskBlind x.s .U                -- C goes on with the blind `Register`
+    let good := (sstep x (.release 1)).2.s              -- C goes on with the code as it is
+    x.s.slot .U = .present ∧ listedOn x.s .U = true ∧
+    good.slot .U = .present ∧ (process good (.proto (.fresh .U) .member .m3)).2.delivered = good.delivered + 1 ∧
+    blind.slot .U = .requested ∧ (process blind (.proto (.fresh .U) .member .m3)).2.delivered = blind.delivered := by
+  decide
+
 end C07
